@@ -10,10 +10,15 @@ SOURCES = {"curtsies/formatstring.py": ["FmtStr.__getitem__", "normalize_slice",
 RULE = ("exhaustive: every run layout (0..3 runs, run lengths >=0, total <=5 quick / <=6 thorough, distinct characters, "
         "run i formatted with palette entry i) x every slice (a,b) in ([-len-2,len+2] u {None})^2 and every int index in "
         "[-len-2,len+2]; + on all ordered pairs of a 14-value pool with FmtStr and plain str on either side; * with counts "
-        "-1..3; join of every list of <=3 items from a 6-item pool for 3 separators; plus seeded random longer cases. "
+        "-1..3; join of every list of <=3 items from a 6-item pool for 4 separators, plus join with plain-str items that contain ESC[ (finding D27), reflected repetition n*f, slices with a step; plus seeded random longer cases. "
         "non-trivial = distinct (operation, operands) whose result is not the empty string or that raises")
-ASSUMPTIONS = ["plain str operands contain no ESC (fmtstr(str) would parse them; covered by C17)",
-               "slice steps are not supported by the library (NotImplementedError) and are outside the statement"]
+ASSUMPTIONS = ["slice steps are not supported by the library (NotImplementedError) and are outside the statement (the tie still compares the error)",
+               "f + str / str + f do not parse the str (Chunk(other)); join converts str items with fmtstr(s), which parses escape sequences: "
+               "for str items containing ESC[ the property is false of the code (open finding D27, reported as KNOWN-FINDING)"]
+LEVEL_NOTE = ("slicing, indexing, +, *, n*f and join over FmtStr items are proved for all inputs (C06_slice, C06_index, C06_add*, C06_mul, C06_rmul, C06_join); "
+              "join with plain-str items is proved for items free of ESC[ (C06_join_items_partial, through C17_plain); for items containing ESC[ the full statement "
+              "C06_join_items_full_statement is refuted by C06_D27_witness (open finding D27). Trusted: Lean kernel, the model of __getitem__/normalize_slice/__add__/__mul__/join "
+              "(tied per run at run level, not only per character), Spec/PySlice (Python slicing semantics), harness codec.")
 
 
 def py_slice_cells(cs, a, b):
@@ -43,11 +48,20 @@ def mk_cases(ctx):
     for f in pool:
         for n in (-1, 0, 1, 2, 3):
             cases.append(dict(op="mul", f=f, n=n))
+            cases.append(dict(op="rmul", f=f, n=n))
+        cases.append(dict(op="step", f=f, a=0, b=None))
+        cases.append(dict(op="step", f=f, a=None, b=2))
     items = [("f", pool[2]), ("f", pool[4]), ("s", "x"), ("s", ""), ("f", pool[0]), ("f", pool[6])]
     for sep in (pool[0], pool[3], pool[4], pool[1]):
         for k in range(0, 4):
             for combo in itertools.product(items, repeat=k):
                 cases.append(dict(op="join", sep=sep, items=list(combo)))
+    # join with plain-str items containing escape sequences (finding D27): rare but present every run
+    esc_items = ["\x1b[31mx\x1b[39m", "\x1b[31m", "a\x1b[0mb", "\x1b[5;9Hx", "\x1b[999mx", "\x1b[1;31mxy"]
+    for sep in (pool[0], pool[3]):
+        for e in esc_items:
+            cases.append(dict(op="join", sep=sep, items=[("s", "a"), ("s", e)]))
+            cases.append(dict(op="join", sep=sep, items=[("s", e), ("f", pool[2])]))
     # seeded random longer strings
     r = ctx.rng
     for _ in range(3000 if ctx.thorough else 600):
@@ -72,30 +86,56 @@ def line(c):
         return "%s %s %s" % (op, wire.enc_chunks(c["f"]), wire.enc_tf(c["s"]))
     if op == "mul":
         return "mul %s %d" % (wire.enc_chunks(c["f"]), c["n"])
+    if op == "rmul":
+        return "rmul %d %s" % (c["n"], wire.enc_chunks(c["f"]))
+    if op == "step":
+        return "getitem %s slice %s %s 1" % (wire.enc_chunks(c["f"]), wire.enc_optint(c["a"]), wire.enc_optint(c["b"]))
     if op == "join":
-        its = [wire.enc_chunks(v) if k == "f" else wire.enc_chunks([(v, {})]) for k, v in c["items"]]
-        return " ".join(["join", wire.enc_chunks(c["sep"])] + its)
+        its = ["f:" + wire.enc_chunks(v) if k == "f" else "s:" + wire.enc_text(v) for k, v in c["items"]]
+        return " ".join(["joinitems", wire.enc_chunks(c["sep"])] + its)
     raise KeyError(op)
 
 
+LAST_OPERANDS = []
+
+
 def run_impl(c):
-    """the real operation -> FmtStr (or raises)"""
+    """the real operation -> FmtStr (or raises); the operand objects are left in LAST_OPERANDS"""
     op = c["op"]
     f = mk_fmt(c["f"]) if "f" in c else None
+    del LAST_OPERANDS[:]
+    if f is not None:
+        LAST_OPERANDS.append((f, c["f"]))
     if op == "slice":
         return f[c["a"]:c["b"]]
     if op == "int":
         return f[c["i"]]
     if op == "add":
-        return f + mk_fmt(c["g"])
+        g = mk_fmt(c["g"])
+        LAST_OPERANDS.append((g, c["g"]))
+        return f + g
     if op == "addstr":
         return f + c["s"]
     if op == "raddstr":
         return c["s"] + f
     if op == "mul":
         return f * c["n"]
+    if op == "rmul":
+        return c["n"] * f
+    if op == "step":
+        return f[c["a"]:c["b"]:1]
     if op == "join":
-        return mk_fmt(c["sep"]).join([mk_fmt(v) if k == "f" else v for k, v in c["items"]])
+        sep = mk_fmt(c["sep"])
+        LAST_OPERANDS.append((sep, c["sep"]))
+        items = []
+        for k, v in c["items"]:
+            if k == "f":
+                o = mk_fmt(v)
+                LAST_OPERANDS.append((o, v))
+                items.append(o)
+            else:
+                items.append(v)
+        return sep.join(items)
     raise KeyError(op)
 
 
@@ -122,8 +162,10 @@ def expected(c):
         return ("cells", cs + plain(c["s"]))
     if op == "raddstr":
         return ("cells", plain(c["s"]) + cs)
-    if op == "mul":
+    if op in ("mul", "rmul"):
         return ("cells", cs * c["n"])
+    if op == "step":
+        return ("outside", None)
     if op == "join":
         sep = wire.cells_of_chunks(c["sep"])
         out = []
@@ -135,9 +177,19 @@ def expected(c):
     raise KeyError(op)
 
 
+def operands(c):
+    out = []
+    for k in ("f", "g", "sep"):
+        if k in c:
+            out.append(c[k])
+    return out
+
+
 def oracle(c):
     """-> None if the implementation satisfies the property on this case, else a description"""
     exp = expected(c)
+    if exp[0] == "outside":
+        return None   # slicing with a step: outside the statement (tie only)
     try:
         r = run_impl(c)
     except Exception as e:  # noqa: BLE001
@@ -157,22 +209,44 @@ def oracle(c):
             return "%s: len() is %d, number of characters is %d" % (c["op"], len(r), len(exp[1]))
         if bool(r) != bool(text):
             return "%s: truth value differs from that of the text" % c["op"]
+        if r.s != text or len(r) != len(exp[1]) or cells(r) != exp[1]:
+            return "%s: a second observation of the result differs from the first" % c["op"]
+        for o, spec in LAST_OPERANDS:
+            want = wire.cells_of_chunks(spec)
+            if cells(o) != want or o.s != "".join(ch for ch, _ in want) or len(o) != len(want):
+                return "%s: an operand changed (now %r)" % (c["op"], o)
     except Exception as e:  # noqa: BLE001 - observing the result must not raise
         return "%s: observing the result (.s / len / chunks) raised %s: %s" % (c["op"], type(e).__name__, e)
     return None
 
 
 def footprint(c, what):
+    """D27: join with a plain-str item that contains ESC[, and the ONLY deviation is the one explained by
+    fmtstr(str) parsing that item (result = the join of the parsed items); anything else is unlisted."""
+    if c["op"] == "join" and any(k == "s" and "\x1b[" in v for k, v in c["items"]):
+        try:
+            from curtsies.formatstring import fmtstr as _fmtstr
+            sep = wire.cells_of_chunks(c["sep"])
+            want = []
+            for i, (k, v) in enumerate(c["items"]):
+                if i:
+                    want += sep
+                want += wire.cells_of_chunks(v) if k == "f" else cells(_fmtstr(v))
+            if cells(run_impl(c)) == want:
+                return "D27"
+        except Exception:  # noqa: BLE001
+            return None
     return None
 
 
 def check(ctx):
     cases = mk_cases(ctx)
     ctx.tie("C06/ops", cases, line, impl, canon_cells, canon_cells)
+    ctx.tie("C06/ops-run-level", cases, line, impl)   # un-canonicalised: run structure too (C09/C15/C16 reuse getslice)
     for c in cases:
         w = oracle(c)
         e = expected(c)
-        ctx.count(c, nontrivial=(e[0] == "raises" or len(e[1]) > 0), tag=c["op"])
+        ctx.count(c, nontrivial=(e[0] in ("raises", "outside") or len(e[1]) > 0), tag=c["op"])
         if w:
             ctx.violation(w, c, footprint(c, w))
 
